@@ -4,6 +4,7 @@ import (
 	"bytes"
 	"encoding/binary"
 	"fmt"
+	"math"
 	"net"
 	"sync"
 
@@ -105,7 +106,9 @@ func ParseAnnounce(r Request, v6Action bool, opts ParseOptions) (*bittorrent.Ann
 		return nil, errMalformedIP
 	}
 
+	// BEP 15: a num_want of -1 asks for the default number of peers.
 	numWant := binary.BigEndian.Uint32(r.Packet[ipEnd+4 : ipEnd+8])
+	numWantProvided := numWant != math.MaxUint32
 	port := binary.BigEndian.Uint16(r.Packet[ipEnd+8 : ipEnd+10])
 
 	params, err := handleOptionalParameters(r.Packet[ipEnd+10:])
@@ -121,7 +124,7 @@ func ParseAnnounce(r Request, v6Action bool, opts ParseOptions) (*bittorrent.Ann
 		Downloaded:      downloaded,
 		Uploaded:        uploaded,
 		IPProvided:      ipProvided,
-		NumWantProvided: true,
+		NumWantProvided: numWantProvided,
 		EventProvided:   true,
 		Peer: bittorrent.Peer{
 			ID:   bittorrent.PeerIDFromBytes(peerID),
